@@ -333,6 +333,8 @@ def exc_vec(rng):
         return v
     if x < 0.28:
         return [0.0, 0.0, 0.0]
+    if x < 0.36:                          # components that sum to exactly zero
+        return rng.choice([[0.5, -0.5, 0.0], [0.25, 0.5, -0.75], [-1.0, 0.25, 0.75], [0.0, 0.125, -0.125]])
     return rvec(rng, -1, 1)
 
 
